@@ -2,6 +2,7 @@ package rules
 
 import (
 	"fmt"
+	"go/constant"
 	"go/token"
 	"go/types"
 	"sort"
@@ -612,4 +613,152 @@ func closuresOf(p *an.Prog, f *ssa.Function) []*ssa.Function {
 	}
 	sort.Slice(add, func(i, j int) bool { return sk(add[i]) < sk(add[j]) })
 	return append(out, add...)
+}
+
+// deferredCallAt: does a `defer` registered on every path to ret (its block dominates ret's) make a call matching
+// isCut run when the function returns through ret? Accepted shapes: the deferred call itself matches; a deferred
+// function literal every path of which passes a matching call; a deferred literal whose matching call is skipped
+// only under tests of one captured boolean cell (`if !finished { tx.Rollback() }`) when no store that flips the
+// cell to the skipping value can reach ret in the parent's CFG.
+func deferredCallAt(p *an.Prog, ret *ssa.Return, isCut func(ssa.Instruction) bool) bool {
+	f := ret.Parent()
+	for _, b := range f.Blocks {
+		if !b.Dominates(ret.Block()) {
+			continue
+		}
+		for _, in := range b.Instrs {
+			d, ok := in.(*ssa.Defer)
+			if !ok {
+				continue
+			}
+			if b == ret.Block() {
+				// must come before the return in the same block: a Return is the last instruction, so it does
+			}
+			if isCut(d) {
+				return true
+			}
+			mc, ok := d.Call.Value.(*ssa.MakeClosure)
+			if !ok {
+				continue
+			}
+			lit, _ := mc.Fn.(*ssa.Function)
+			if lit == nil || len(lit.Blocks) == 0 {
+				continue
+			}
+			// (a) every path of the literal passes a matching call
+			s := &an.Search{P: p, Fn: lit, Cut: isCut, GoalReturn: func(*ssa.Return, *ssa.BasicBlock) bool { return true }}
+			if s.Run(lit.Blocks[0], 0, nil) == nil {
+				return true
+			}
+			// (b) skipped only under tests of one captured boolean cell
+			for i, fv := range lit.FreeVars {
+				if i >= len(mc.Bindings) {
+					break
+				}
+				cell, ok := mc.Bindings[i].(*ssa.Alloc)
+				if !ok || freeVarWritten(fv) {
+					continue
+				}
+				pt, ok := cell.Type().Underlying().(*types.Pointer)
+				if !ok {
+					continue
+				}
+				if bt, ok := pt.Elem().Underlying().(*types.Basic); !ok || bt.Kind() != types.Bool {
+					continue
+				}
+				for _, want := range []bool{false, true} {
+					// with *cell == want, does every path of the literal pass a matching call?
+					s := &an.Search{P: p, Fn: lit, Cut: isCut, GoalReturn: func(*ssa.Return, *ssa.BasicBlock) bool { return true }}
+					s.CutEdge = func(from, to *ssa.BasicBlock) bool {
+						ifi, ok := from.Instrs[len(from.Instrs)-1].(*ssa.If)
+						if !ok {
+							return false
+						}
+						cond, pol := ifi.Cond, true
+						for {
+							if u, ok := cond.(*ssa.UnOp); ok && u.Op == token.NOT {
+								cond, pol = u.X, !pol
+								continue
+							}
+							break
+						}
+						ld, ok := cond.(*ssa.UnOp)
+						if !ok || ld.Op != token.MUL || ld.X != ssa.Value(fv) {
+							return false
+						}
+						// value of the condition when *cell == want
+						cv := want == pol
+						taken := from.Succs[0]
+						if !cv {
+							taken = from.Succs[1]
+						}
+						return to != taken // the other edge is infeasible: do not follow it
+					}
+					if s.Run(lit.Blocks[0], 0, nil) != nil {
+						continue
+					}
+					// the cell must hold `want` at ret: its stores of anything else must not reach ret
+					okCell := true
+					sawInit := !want // a fresh bool cell is false
+					for _, r := range *cell.Referrers() {
+						st, ok := r.(*ssa.Store)
+						if !ok || st.Addr != ssa.Value(cell) {
+							continue
+						}
+						k, isConst := st.Val.(*ssa.Const)
+						if isConst && k.Value != nil && constant.BoolVal(k.Value) == want {
+							if st.Block().Dominates(d.Block()) {
+								sawInit = true
+							}
+							continue
+						}
+						if blockReaches(st.Block(), ret.Block()) {
+							okCell = false
+						}
+					}
+					if okCell && sawInit {
+						return true
+					}
+				}
+			}
+		}
+	}
+	return false
+}
+
+func freeVarWritten(fv *ssa.FreeVar) bool {
+	for _, r := range *fv.Referrers() {
+		switch x := r.(type) {
+		case *ssa.Store:
+			if x.Addr == ssa.Value(fv) {
+				return true
+			}
+		case *ssa.MakeClosure:
+			return true
+		}
+	}
+	return false
+}
+
+// blockReaches: plain CFG reachability (from's successors onward; from == to counts when to is in a cycle or equal).
+func blockReaches(from, to *ssa.BasicBlock) bool {
+	if from == to {
+		return true
+	}
+	seen := map[*ssa.BasicBlock]bool{from: true}
+	q := []*ssa.BasicBlock{from}
+	for len(q) > 0 {
+		b := q[0]
+		q = q[1:]
+		for _, s := range b.Succs {
+			if s == to {
+				return true
+			}
+			if !seen[s] {
+				seen[s] = true
+				q = append(q, s)
+			}
+		}
+	}
+	return false
 }
